@@ -18,8 +18,7 @@ KINDS = ["container", "store", "prio", "filter"]
 AMOUNTS = ["1/1", "2/1", "3/1", "5/1", "1/2"]
 DELAYS = ["0/1", "1/1", "2/1", "1/2", "3/1"]
 STEP_LIMIT = 4000
-import os
-FIXED = os.environ.get("C07_MODEL_FIXED", "true")   # developer switch: "false" = model of the code before the fix: commit
+FIXED = "true"      # the model of the repaired cancel (fix: e27f019); "false" is the code as found, used only by the refutation theorem
 
 
 def fr(x):
@@ -493,8 +492,7 @@ class C07(Prop):
     def nontrivial(self, case, obs):
         if obs.get("error") is not None:
             return False
-        waited = any((r["snap"]["pq"] or r["snap"]["gq"]) and r["a"][0] == "adv" for r in obs["acts"][:-1]) or \
-            any(len(r["snap"]["pq"]) + len(r["snap"]["gq"]) >= 1 for r in obs["acts"])
+        waited = any(r["snap"]["pq"] or r["snap"]["gq"] for r in obs["acts"])
         return waited and len(obs["log"]) >= 2
 
     def shrink(self, case):
